@@ -569,25 +569,54 @@ func c18HelperRecursive(c *Ctx, fn *ssa.Function) (bool, string) {
 	for _, g := range stores {
 		b := g.st.Block()
 		// dominated by the true edge of j(tempVal), j ∈ funcs, tempVal = Join(value[start:end+1], " ")
-		var call *ssa.Call
-		var callBlk *ssa.BasicBlock
-		for d := b; d != nil; d = d.Idom() {
-			if d == b {
-				continue
+		// (the acceptance may reach the store through a boolean that is true only on the accepting edge — the
+		// form a search helper takes once it is inlined)
+		var findAccept func(b *ssa.BasicBlock, depth int) (*ssa.Call, *ssa.BasicBlock)
+		findAccept = func(b *ssa.BasicBlock, depth int) (*ssa.Call, *ssa.BasicBlock) {
+			for d := b; d != nil; d = d.Idom() {
+				if d == b {
+					continue
+				}
+				ifi, ok := d.Instrs[len(d.Instrs)-1].(*ssa.If)
+				if !ok {
+					continue
+				}
+				if !(d.Succs[0].Dominates(b) && d.Succs[0] != d.Succs[1] && len(d.Succs[0].Preds) == 1) {
+					continue
+				}
+				switch cnd := ifi.Cond.(type) {
+				case *ssa.Call:
+					if cnd.Common().IsInvoke() || cnd.Common().StaticCallee() != nil {
+						continue
+					}
+					return cnd, d
+				case *ssa.Phi:
+					if depth > 2 {
+						continue
+					}
+					var call *ssa.Call
+					var blk *ssa.BasicBlock
+					for i, e := range cnd.Edges {
+						if model.IsFalse(e) {
+							continue
+						}
+						if !model.IsTrue(e) {
+							return nil, nil
+						}
+						c2, b2 := findAccept(cnd.Block().Preds[i], depth+1)
+						if c2 == nil || (call != nil && c2 != call) {
+							return nil, nil
+						}
+						call, blk = c2, b2
+					}
+					if call != nil {
+						return call, blk
+					}
+				}
 			}
-			ifi, ok := d.Instrs[len(d.Instrs)-1].(*ssa.If)
-			if !ok {
-				continue
-			}
-			cl, ok := ifi.Cond.(*ssa.Call)
-			if !ok || cl.Common().IsInvoke() || cl.Common().StaticCallee() != nil {
-				continue
-			}
-			if d.Succs[0].Dominates(b) && d.Succs[0] != d.Succs[1] && len(d.Succs[0].Preds) == 1 {
-				call, callBlk = cl, d
-				break
-			}
+			return nil, nil
 		}
+		call, callBlk := findAccept(b, 0)
 		if call == nil {
 			return false, "a suffix is marked valid at " + c.P.Pos(g.st.Pos()) + " without a handler from the list having accepted the group"
 		}
